@@ -17,7 +17,9 @@ recorded.  The names tempfile drew are read off the observation and are inputs o
      other stale files in the tmp_dir parent gives the same outputs and leaves the stale files alone.
 A valid stream (the protocol run_mapping follows: writes only to handed-out locations) and a malformed stream
 (directories / missing files / files as parents given to add_file, unlisted queries, tmp_dir that is no
-directory, the environment writing anywhere, adding a handed-out location itself) are generated."""
+directory, the environment writing anywhere, adding a handed-out location itself) are generated.
+ (c) THE REAL CALLER: the life of the FileTracker of a real run_mapping is recorded (real_life) and the hypotheses of the
+     theorems (Tracker.life_premise, tag 1954) are evaluated on it: class tracker-premise-false-on-real-run."""
 import os
 import pathlib
 import shutil
@@ -624,6 +626,194 @@ def mkstemp_cases(ctx):
             ctx.violation('mkstemp_clean: not exactly one new empty file in dir (none with delete=True)', d2)
 
 
+# ------------------------------------------------------------------ the life of the REAL caller
+WRITE_KINDS = ('Create', 'OpenW')
+
+
+def real_life(ctx, k):
+    """One real run_mapping (tmp_dir given, obsm_key unset) in a child under strace, with the methods of FileTracker
+    wrapped harness-side (fstrace._install_tracker_recorder): the calls _run_mapping makes on its tracker and what the
+    ENVIRONMENT (the rest of the pipeline, all its processes) writes while the tracker lives are recorded; the hypotheses
+    of the tracker theorems of Props/C19.v (Tracker.life_premise, tag 1954) are evaluated on that life, the calls are
+    replayed through the model (tag 1951), and the conclusions are checked on the snapshots."""
+    from harness import fstrace
+    from harness.props import c19
+    rng = ctx.rng
+    base = ctx.scratch / 'tracker' / f'real{k}'
+    src = base / 'src'
+    c19.mapping_inputs(rng, src)
+    sb = c19.sandbox(base, 'box')
+    sb = pathlib.Path(sb).resolve()
+    # entries an earlier run left in the scratch directory and in the output directory
+    (sb / 'tmp' / 'file_tracker_stale000').mkdir()
+    (sb / 'tmp' / 'file_tracker_stale000' / 'query_old.h5ad').write_bytes(b'stale')
+    (sb / 'tmp' / 'query_marker_stale.h5').write_bytes(b'stale marker cache')
+    (sb / 'out' / 'result_old.json').write_text('{}')
+    job = c19.mapping_job(f'tracker-life-{k}', sb, src, f'tl{k}', n_processors=rng.choice([1, 2, 3]),
+                          chunk_size=rng.choice([2, 3, 4]), seed=rng.randrange(10 ** 6))
+    job['record_tracker'] = True
+    rec = fstrace.run_children([[job]], ctx.scratch / 'trace' / f'trackerlife{k}')[0][0]
+    res = rec['res']
+    desc = {'kind': 'FileTracker life of a real run_mapping', 'run_ok': res.get('ok'), 'error': res.get('error')}
+    calls = res.get('tracker_life') or []
+    marks = {w: (t, pid) for w, t, pid in rec.get('marks', [])}
+    lives = {}
+    for c in calls:
+        lives.setdefault(c['obj'], []).append(c)
+    whole = [cs for cs in lives.values() if cs[0]['kind'] == '__init__' and cs[-1]['kind'] == '__del__'
+             and all(f"tk{c['n']}a" in marks and f"tk{c['n']}b" in marks for c in cs)]
+    ctx.dist('tracker.real-run_mapping.lives-recorded', len(whole))
+    if not res.get('ok') or len(whole) != 1:
+        d = dict(desc, **{'class': 'corr:c19_tracker.real-life-not-recorded', 'calls': [c['kind'] for c in calls]})
+        ctx.violation('the traced run_mapping failed or the life of its FileTracker was not recorded '
+                      f'(ok={res.get("ok")}, {len(whole)} whole lives, error={res.get("error")})', d, no_input=True)
+        return
+    cs = whole[0]
+    init, dele = cs[0], cs[-1]
+    main_pid = rec['main_pid']
+    t_alive, t_del = marks[f"tk{init['n']}b"][0], marks[f"tk{dele['n']}a"][0]
+    inside = [(marks[f"tk{c['n']}a"][0], marks[f"tk{c['n']}b"][0]) for c in cs]
+
+    def own(o):
+        return o['pid'] == main_pid and any(a <= o['t'] <= b for a, b in inside)
+    env = [o for o in rec['ops'] if t_alive <= o['t'] <= t_del and not own(o)]
+    writes, env_dirs, removed = [], [], []
+    for o in env:
+        if o['k'] in WRITE_KINDS:
+            writes.append((o['t'], o['p']))
+        elif o['k'] == 'Rename':
+            writes.append((o['t'], o['q']))
+            removed.append(o['p'])
+        elif o['k'] == 'Mkdir':
+            env_dirs.append(o['p'])
+        elif o['k'] in ('Unlink', 'Rmdir'):
+            removed.append(o['p'])
+    # ---- encode: paths relative to the sandbox
+    ids = {}
+
+    def rel(p):
+        return tuple(pathlib.Path(p).relative_to(sb).parts)
+
+    def enc(r):
+        return [ids.setdefault(c, len(ids) + 1) for c in r]
+    cid = {}
+
+    def enc_fs(snap):
+        out = [[[], 1, 0]]
+        for pth, v in sorted(snap.items()):
+            r = rel(pth)
+            if not r:
+                continue
+            out.append([enc(r), 1, 0] if v == 'dir' else [enc(r), 0, cid.setdefault(v, len(cid) + 1)])
+        for top in ('in', 'out', 'tmp', 'systmp', 'cwd', 'tmp2'):
+            if not any(e[0] == enc((top,)) for e in out):
+                out.append([enc((top,)), 1, 0])
+        return out
+    snap0 = init['snap0']
+    f0 = enc_fs(snap0)
+    if init.get('tmp_dir') is None:
+        d = dict(desc, **{'class': 'corr:c19_tracker.real-life-not-recorded'})
+        ctx.violation('the FileTracker of run_mapping was made without a tmp_dir although one was configured', d, no_input=True)
+        return
+    T = rel(init['tmp_dir'])
+    dpar, n0 = enc(T[:-1]), enc(T)[-1]
+    if rel(init['tmp_dir_arg']) != T[:-1]:
+        ctx.violation('FileTracker.tmp_dir is not a direct child of the tmp_dir it was given',
+                      dict(desc, **{'class': 'tracker-scratch-left'}))
+    timeline = []
+    for c in cs[1:-1]:
+        t = marks[f"tk{c['n']}a"][0]
+        if c['kind'] == 'add_file':
+            nm = enc(rel(c['location']))[-1] if c.get('location') else 0
+            timeline.append((t, 0, [1, enc(rel(c['path'])), 1 if c['input_only'] else 0, nm], c))
+        elif c['kind'] == 'real_location':
+            timeline.append((t, 0, [2, enc(rel(c['path']))], c))
+        elif c['kind'] == 'file_exists':
+            timeline.append((t, 0, [3, enc(rel(c['path']))], c))
+    seen = set()
+    nw = 10 ** 6
+    for t, pth in writes:
+        if pth in seen:
+            continue
+        seen.add(pth)
+        nw += 1
+        timeline.append((t, 1, [4, enc(rel(pth)), nw], None))
+    timeline.sort(key=lambda x: (x[0], x[1]))
+    mid = [x[2] for x in timeline]
+    ops = [[0, [dpar], n0]] + mid + [[5]]
+    r_prem, r_ops = ctx.model([(1954, [f0, dpar, n0, mid]), (1951, [f0, ops])])
+    W = {rel(pth) for _, pth in writes}
+    desc.update({'tmp_dir': '/'.join(T[:-1]), 'tracker_dir': '/'.join(T),
+                 'calls': [[c['kind'], '/'.join(rel(c['path'])) if 'path' in c else None, c.get('input_only')] for c in cs],
+                 'environment_writes': sorted('/'.join(w) for w in W)[:40],
+                 'environment_mkdirs': sorted('/'.join(rel(x)) for x in env_dirs)[:20]})
+    if k == 0:
+        ctx.sample(desc, limit=len(ctx.samples) + 1)
+    sib = [w for w in W if w[:-1] == T[:-1]]
+    ctx.dist('tracker.real-run_mapping.environment-writes', f'{min(len(W), 20)} paths, {len(sib)} sibling(s) of the tracker directory')
+    ctx.count(('tracker-real-life', len(cs), len(W)), nontrivial=(len(cs) >= 4 and len(W) >= 2))
+    # (a) the premise of the theorems, evaluated by the model on the recorded life
+    if r_prem[0] != 0:
+        ctx.violation(f'model answered {str(r_prem)[:200]}', dict(desc, **{'class': 'corr:Tracker.run_life_premise'}), no_input=True)
+        return
+    premise, strict, n_w, n_req = r_prem[1]
+    ctx.dist('tracker.real-run_mapping.life_premise', 'holds' if premise == 1 else 'FALSE')
+    ctx.dist('tracker.real-run_mapping.strict-protocol-writes_ok', 'holds' if strict == 1 else 'violated (expected: marker cache, buffers, CSV)')
+    if premise != 1:
+        ctx.violation('the hypotheses of the tracker theorems (Tracker.life_premise) are FALSE on the life of the FileTracker '
+                      'of a real run_mapping: the theorems do not apply to the real caller',
+                      dict(desc, **{'class': 'tracker-premise-false-on-real-run'}))
+    if n_w != len(W):
+        ctx.violation('written(mid) of the model differs from the recorded environment writes',
+                      dict(desc, **{'class': 'corr:Tracker.run_life_premise'}), no_input=True)
+    # (a') the calls of the real life through the model: same outputs
+    if r_ops[0] != 0 or len(r_ops[1]) != len(ops):
+        ctx.violation(f'model answered {str(r_ops)[:200]}', dict(desc, **{'class': 'corr:Tracker.run_tracker_ops'}), no_input=True)
+    else:
+        exp = [[0]]
+        for t, kind, mop, c in timeline:
+            if c is None:
+                exp.append(None)          # environment write: the model has no mkdir, a write below a directory the
+                continue                  # environment made itself is refused there (code 8); not compared
+            if c['kind'] == 'add_file':
+                exp.append([0] if c['ok'] else [3])
+            elif c['kind'] == 'real_location':
+                exp.append([1, enc(rel(c['result']))] if c['ok'] else [3])
+            else:
+                exp.append([2, 1 if c['result'] else 0] if c['ok'] else [3])
+        exp.append([0] if dele['ok'] else [3, 10])
+        for j, (e, m) in enumerate(zip(exp, r_ops[1])):
+            if e is not None and m[1][:len(e)] != e:
+                ctx.disagreements_checked += 1
+                ctx.violation(f'real run_mapping life, call {j}: observed {e}, model {m[1]}',
+                              dict(desc, **{'class': 'corr:Tracker.run_tracker_ops', 'where': f'call {j}'}), no_input=True)
+                break
+    # (b) the conclusions on the observation
+    before, after = dele['snap_before'], dele['snap_after']
+    for pth, v in snap0.items():
+        if v != 'dir' and rel(pth) not in W and pth not in removed and after.get(pth) != v:
+            ctx.violation(f'{"/".join(rel(pth))} existed before the tracker was made, was not written by the environment and '
+                          f'differs after del', dict(desc, **{'class': 'tracker-input-changed'}))
+    left = [x for x in after if x == init['tmp_dir'] or x.startswith(init['tmp_dir'] + '/')]
+    if left:
+        ctx.violation(f'after del the tracker directory still holds {sorted(left)[:4]}', dict(desc, **{'class': 'tracker-scratch-left'}))
+    requested = {c['path'] for c in cs if c['kind'] == 'add_file' and not c['input_only']}
+    made = [x for x in env_dirs]
+    for pth in after:
+        if pth in snap0 or pth in requested or rel(pth) in W:
+            continue
+        if any(pth == m or pth.startswith(m + '/') for m in made):
+            continue
+        ctx.violation(f'{"/".join(rel(pth))} is new after del, was not requested and not made by the environment',
+                      dict(desc, **{'class': 'tracker-file-not-requested'}))
+    for pth, v in before.items():
+        inside_t = pth == init['tmp_dir'] or pth.startswith(init['tmp_dir'] + '/')
+        if not inside_t and pth not in dele['to_write_out'] and after.get(pth) != v:
+            ctx.violation(f'{"/".join(rel(pth))} outside the tracker directory changed during del',
+                          dict(desc, **{'class': 'tracker-file-not-requested'}))
+    shutil.rmtree(base, ignore_errors=True)
+
+
 def run_part(ctx):
     ctx.rule += ('; FileTracker part: one life of a real FileTracker (calls compared with the model step by step); '
                  'non-trivial = at least one add_file succeeded and the life ended with del; _clean_up: the target has '
@@ -636,9 +826,19 @@ def run_part(ctx):
         'interpreter emulated; one tracker at a time (codes 6/7 of the model have no counterpart in the code); the '
         'branch add_file(path == the name mkstemp draws) is impossible (the drawn name is longer than the path name) and '
         'is code 5 of the model; log=None',
+        'FileTracker part, life of the real caller: one real run_mapping per case (tmp_dir given, obsm_key unset: with '
+        'obsm_key the query file -- an input -- is written by design) runs in a child under strace with the methods of '
+        'FileTracker wrapped harness-side; the environment writes are the successful open(O_WRONLY|O_RDWR / O_CREAT / '
+        'O_TRUNC) and rename destinations of ALL processes of the run between the return of the constructor and the entry '
+        'of __del__, except what the main process does inside a tracker call; each written path is given to the model '
+        'once (first write); the model environment has no mkdir/unlink: directories the pipeline makes while the tracker '
+        'lives are not model operations (a model write below one is refused with code 8 and not compared), which does '
+        'not affect Tracker.life_premise (it reads f0, the calls and the written paths only)',
     ]
     (ctx.scratch / 'tracker').mkdir(parents=True, exist_ok=True)
     tracker_cases(ctx)
+    for k in range(ctx.n(1, 4)):
+        real_life(ctx, k)
     clean_up_cases(ctx)
     mkstemp_cases(ctx)
     shutil.rmtree(ctx.scratch / 'tracker', ignore_errors=True)
